@@ -21,7 +21,7 @@ RULE = ('seeded generator: field shapes 1..7 per side (even/odd/non-square/one-e
 ASSUMPTIONS = ['one-element fields are infinite constants only in products (DESIGN.md C06 domain decision)',
                'scalar x scalar with different offsets is excluded (documented lentil rule, unreachable via Plane/Wavefront)']
 PLAN = {'quick': {'gen': 8}, 'thorough': {'gen': 16, 'tests': 1, 'docs': 1}}
-REQUIRED_BUCKETS = ['defaults', 'empty-field', 'insert:constant', 'merge:constants', 'mul:array*array', 'mul:array*scalar', 'mul:scalar*scalar', 'mul:disjoint',
+REQUIRED_BUCKETS = ['defaults', 'reuse', 'empty-field', 'insert:constant', 'merge:constants', 'mul:array*array', 'mul:array*scalar', 'mul:scalar*scalar', 'mul:disjoint',
                     'insert:inside', 'insert:clipped', 'insert:outside', 'insert:intensity',
                     'reduce:n>=3', 'boundary:negative-only', 'extent:queries', 'constant:length-1-vector']
 REQUIRED_ANCHORS = ['probe:Field.__mul__', 'probe:insert', 'probe:_merge', 'probe:reduce', 'probe:boundary',
